@@ -98,6 +98,20 @@ def run(pid, tier, seed, replay=None):
                 w = w[:rng.randint(len(opens), len(w))] + good
             if len(w) <= 18:
                 nested.append((g, True, w))
+    # statement lists in which several consecutive statements are broken (many recovery alternatives with tails)
+    errlists = []
+    for _ in range(6 if quick else 60):
+        tail = rng.choice([['b', ';'], [';'], ['b', 'c', ';']])
+        gl = gen.Gram([('a', 97), ('b', 98), ('c', 99), (';', 59), ('q', 113)],
+                      [('P', ['L'], None, 0, [0]), ('L', ['L', 'I'], 'l', 0, [0, 1]), ('L', ['I'], None, 0, [0]),
+                       ('I', ['a'] + tail, 'st', 0, [0]), ('I', ['error', ';'], 'bad', 0, [])])
+        for k in (3, 4, 5, 6):
+            w = []
+            for j in range(k):
+                w += rng.choice([['a', ';'], ['a', 'q', ';'], ['q', ';']]) if tail != [';'] else rng.choice([['q', ';'], ['a', 'a', ';']])
+            if rng.random() < 0.5:
+                w += ['a'] + tail
+            errlists.append((gl, True, w))
     for g, strict in corpus:
         stats['grammars'] += 1
         if any('error' in r[1] for r in g.rules):
@@ -116,6 +130,15 @@ def run(pid, tier, seed, replay=None):
                 if len(c) <= 9 and tuple(c) not in seen:
                     seen.add(tuple(c))
                     pairs.append((g, strict, c))
+        if getattr(g, 'pieces', None):
+            # the 'blocks' family: the same construct several times in one input (long inputs)
+            for c in gen.block_inputs(rng, g, 10):
+                if (pid != 'C07' or len(c) <= 9) and tuple(c) not in seen:
+                    seen.add(tuple(c))
+                    pairs.append((g, strict, c))
+                    stats['block_inputs'] = stats.get('block_inputs', 0) + 1
+    pairs += errlists
+    stats['error_list_inputs'] = len(errlists)
     if pid in ('C06', 'C08'):
         pairs += nested
     else:
